@@ -111,13 +111,12 @@ func (l *Lab) leave(idx int, err error) {
 
 // --- wrappers ---------------------------------------------------------------------------------
 
+// The wrappers EMBED the real keeper / server, so that a method the repository adds to one of its
+// expected-keeper interfaces later is served by the real implementation (unrecorded) instead of
+// breaking the harness build; the calls the harness knows about are recorded and can be failed.
 type labBank struct {
+	bankkeeper.Keeper
 	l *Lab
-	k bankkeeper.Keeper
-}
-
-func (b labBank) GetBalance(ctx context.Context, addr sdk.AccAddress, denom string) sdk.Coin {
-	return b.k.GetBalance(ctx, addr, denom)
 }
 
 func (b labBank) SendCoinsFromModuleToModule(ctx context.Context, from, to string, amt sdk.Coins) error {
@@ -126,18 +125,15 @@ func (b labBank) SendCoinsFromModuleToModule(ctx context.Context, from, to strin
 		b.l.leave(idx, ErrInjected)
 		return ErrInjected
 	}
-	err := b.k.SendCoinsFromModuleToModule(ctx, from, to, amt)
+	err := b.Keeper.SendCoinsFromModuleToModule(ctx, from, to, amt)
 	b.l.leave(idx, err)
 	return err
 }
 
 type labFeeBank struct {
+	bankkeeper.Keeper
 	l *Lab
-	k bankkeeper.Keeper
 }
-
-// BlockedAddr is present when the repository's fee bank interface asks for it.
-func (b labFeeBank) BlockedAddr(addr sdk.AccAddress) bool { return b.k.BlockedAddr(addr) }
 
 func (b labFeeBank) SendCoins(ctx context.Context, from, to sdk.AccAddress, amt sdk.Coins) error {
 	idx, fail := b.l.enter("fee-send", &banktypes.MsgSend{FromAddress: from.String(), ToAddress: to.String(), Amount: amt})
@@ -145,7 +141,7 @@ func (b labFeeBank) SendCoins(ctx context.Context, from, to sdk.AccAddress, amt 
 		b.l.leave(idx, ErrInjected)
 		return ErrInjected
 	}
-	err := b.k.SendCoins(ctx, from, to, amt)
+	err := b.Keeper.SendCoins(ctx, from, to, amt)
 	b.l.leave(idx, err)
 	return err
 }
@@ -182,8 +178,8 @@ func (m labEventManager) EmitNonConsensus(ctx context.Context, ev protoiface.Mes
 }
 
 type labCCTP struct {
-	l    *Lab
-	real cctptypes.MsgServer
+	cctptypes.MsgServer
+	l *Lab
 }
 
 func (c labCCTP) DepositForBurn(ctx context.Context, msg *cctptypes.MsgDepositForBurn) (*cctptypes.MsgDepositForBurnResponse, error) {
@@ -193,7 +189,7 @@ func (c labCCTP) DepositForBurn(ctx context.Context, msg *cctptypes.MsgDepositFo
 		c.l.leave(idx, ErrInjected)
 		return nil, ErrInjected
 	}
-	r, err := c.real.DepositForBurn(ctx, msg)
+	r, err := c.MsgServer.DepositForBurn(ctx, msg)
 	c.l.leave(idx, err)
 	return r, err
 }
@@ -205,7 +201,7 @@ func (c labCCTP) DepositForBurnWithCaller(ctx context.Context, msg *cctptypes.Ms
 		c.l.leave(idx, ErrInjected)
 		return nil, ErrInjected
 	}
-	r, err := c.real.DepositForBurnWithCaller(ctx, msg)
+	r, err := c.MsgServer.DepositForBurnWithCaller(ctx, msg)
 	c.l.leave(idx, err)
 	return r, err
 }
@@ -217,15 +213,15 @@ func (c labCCTP) ReplaceDepositForBurn(ctx context.Context, msg *cctptypes.MsgRe
 		c.l.leave(idx, ErrInjected)
 		return nil, ErrInjected
 	}
-	r, err := c.real.ReplaceDepositForBurn(ctx, msg)
+	r, err := c.MsgServer.ReplaceDepositForBurn(ctx, msg)
 	c.l.leave(idx, err)
 	return r, err
 }
 
 type labHyp struct {
-	l     *Lab
-	msgs  warptypes.MsgServer
-	query warptypes.QueryServer
+	warptypes.MsgServer
+	warptypes.QueryServer
+	l *Lab
 }
 
 func (h labHyp) RemoteTransfer(ctx context.Context, msg *warptypes.MsgRemoteTransfer) (*warptypes.MsgRemoteTransferResponse, error) {
@@ -235,7 +231,7 @@ func (h labHyp) RemoteTransfer(ctx context.Context, msg *warptypes.MsgRemoteTran
 		h.l.leave(idx, ErrInjected)
 		return nil, ErrInjected
 	}
-	r, err := h.msgs.RemoteTransfer(ctx, msg)
+	r, err := h.MsgServer.RemoteTransfer(ctx, msg)
 	h.l.leave(idx, err)
 	return r, err
 }
@@ -247,14 +243,14 @@ func (h labHyp) Token(ctx context.Context, req *warptypes.QueryTokenRequest) (*w
 		h.l.leave(idx, ErrInjected)
 		return nil, ErrInjected
 	}
-	r, err := h.query.Token(ctx, req)
+	r, err := h.QueryServer.Token(ctx, req)
 	h.l.leave(idx, err)
 	return r, err
 }
 
 type labBankMsg struct {
-	l    *Lab
-	real banktypes.MsgServer
+	banktypes.MsgServer
+	l *Lab
 }
 
 func (b labBankMsg) Send(ctx context.Context, msg *banktypes.MsgSend) (*banktypes.MsgSendResponse, error) {
@@ -264,7 +260,7 @@ func (b labBankMsg) Send(ctx context.Context, msg *banktypes.MsgSend) (*banktype
 		b.l.leave(idx, ErrInjected)
 		return nil, ErrInjected
 	}
-	r, err := b.real.Send(ctx, msg)
+	r, err := b.MsgServer.Send(ctx, msg)
 	b.l.leave(idx, err)
 	return r, err
 }
@@ -346,11 +342,11 @@ func NewLab(w *World) (lab *Lab, err error) {
 		labEvents{l},
 		runtime.NewKVStoreService(app.GetKey(core.ModuleName)),
 		Authority,
-		labBank{l, app.BankKeeper},
+		labBank{app.BankKeeper, l},
 	)
 	l.Keeper = k
 
-	fee, err := actionctrl.NewFeeController(k.Executor().Logger(), k.Executor().EventService(), labFeeBank{l, app.BankKeeper})
+	fee, err := actionctrl.NewFeeController(k.Executor().Logger(), k.Executor().EventService(), labFeeBank{app.BankKeeper, l})
 	if err != nil {
 		return nil, err
 	}
@@ -362,16 +358,16 @@ func NewLab(w *World) (lab *Lab, err error) {
 		return nil, err
 	}
 
-	cctp, err := forwardingctrl.NewCCTPController(k.Forwarder().Logger(), labCCTP{l, cctpkeeper.NewMsgServerImpl(app.CCTPKeeper)})
+	cctp, err := forwardingctrl.NewCCTPController(k.Forwarder().Logger(), labCCTP{cctpkeeper.NewMsgServerImpl(app.CCTPKeeper), l})
 	if err != nil {
 		return nil, err
 	}
 	hyp, err := forwardingctrl.NewHyperlaneController(k.Forwarder().Logger(),
-		labHyp{l, warpkeeper.NewMsgServerImpl(app.WarpKeeper), warpkeeper.NewQueryServerImpl(app.WarpKeeper)})
+		labHyp{warpkeeper.NewMsgServerImpl(app.WarpKeeper), warpkeeper.NewQueryServerImpl(app.WarpKeeper), l})
 	if err != nil {
 		return nil, err
 	}
-	internal, err := forwardingctrl.NewInternalController(k.Forwarder().Logger(), labBankMsg{l, bankkeeper.NewMsgServerImpl(app.BankKeeper)})
+	internal, err := forwardingctrl.NewInternalController(k.Forwarder().Logger(), labBankMsg{bankkeeper.NewMsgServerImpl(app.BankKeeper), l})
 	if err != nil {
 		return nil, err
 	}
